@@ -16,6 +16,56 @@ import threading
 from . import seams
 
 
+CURRENT = [None]     # the scheduler of the run in progress (for sim.slowplug's import pause)
+
+
+def import_pause(name):
+    """called from the body of a module that is being imported on a controlled thread"""
+    s = CURRENT[0]
+    if s is not None:
+        s.import_pause(name)
+
+
+def import_done(name):
+    s = CURRENT[0]
+    if s is not None:
+        s.importing.pop(name, None)
+
+
+def forget_module(name):
+    """the next import of `name` executes the module again"""
+    pkg, _, leaf = name.rpartition('.')
+    sys.modules.pop(name, None)
+    if pkg in sys.modules and hasattr(sys.modules[pkg], leaf):
+        delattr(sys.modules[pkg], leaf)
+
+
+class _ImportlibProxy:
+    """stands in for the `importlib` pycel.excelformula looks up: a controlled thread that asks
+    for a module another controlled thread is in the middle of importing waits for it, as it
+    would on the interpreter's per-module import lock - deterministically, by handing the baton
+    to the importing thread"""
+
+    def __init__(self, real):
+        self._real = real
+
+    def import_module(self, name, package=None):
+        s = CURRENT[0]
+        if s is not None:
+            s.wait_for_import(name)
+        return self._real.import_module(name, package)
+
+    def __getattr__(self, k):
+        return getattr(self._real, k)
+
+
+def install_import_seam():
+    import importlib
+    import pycel.excelformula as ef
+    if not isinstance(ef.importlib, _ImportlibProxy):
+        ef.importlib = _ImportlibProxy(importlib)
+
+
 class StepCap(BaseException):
     """raised inside a controlled thread once the run exceeded its step budget"""
 
@@ -44,6 +94,10 @@ class Scheduler(seams.Listener):
         self.inside = {}         # thread -> depth of formula evaluations (for probes)
         self.preempt_inside_eval = 0
         self.results = {}
+        self.importing = {}      # module name -> thread in the middle of importing it
+        self.on_import_pause = None   # (thread to switch to, steps it gets or 0) - one shot
+        self.import_waits = 0
+        self.import_pauses = 0
 
     # -- seam listener: yield points at cell-evaluation granularity ----------------
     def on_enter(self, compiler, formula):
@@ -117,6 +171,40 @@ class Scheduler(seams.Listener):
                 while self.cur != me:
                     self.cv.wait()
 
+    # -- imports that take a while ------------------------------------------------------
+    def import_pause(self, name):
+        me = threading.current_thread().name
+        if me not in self.inside:
+            return
+        self.importing[name] = me
+        self.import_pauses += 1
+        plan, self.on_import_pause = self.on_import_pause, None
+        if plan:
+            others = [t for t in self.names if t != me and t not in self.done]
+            to = plan[0] if plan[0] in others else (others[0] if others else None)
+            if to is not None:
+                self.switch_at[self.step + 1] = to
+                if plan[1]:
+                    self.switch_at.setdefault(self.step + 1 + plan[1], me)
+        self.yield_point('import-pause')
+
+    def wait_for_import(self, name):
+        me = threading.current_thread().name
+        if me not in self.inside:
+            return
+        while self.importing.get(name) not in (None, me):
+            owner = self.importing[name]
+            with self.cv:
+                if owner in self.done:
+                    self.importing.pop(name, None)
+                    break
+                self.import_waits += 1
+                self.trace.append((self.step, me, 'blocked-on-import'))
+                self.cur = owner
+                self.cv.notify_all()
+                while self.cur != me:
+                    self.cv.wait()
+
     def run(self, programs, copy_context=False):
         """programs: {name: callable()}; returns {name: result or ('EXC', repr)}
 
@@ -160,11 +248,13 @@ class Scheduler(seams.Listener):
                                                  name=name, daemon=True)
         seams.install()
         seams.LISTENERS.append(self)
+        CURRENT[0] = self
         try:
             for t in threads.values():
                 t.start()
             for t in threads.values():
                 t.join()
         finally:
+            CURRENT[0] = None
             seams.LISTENERS.remove(self)
         return self.results
